@@ -457,13 +457,17 @@ def fam_instance(family, n):
     if family == "bintree":          # depth n
         k = 2 ** (n + 1) - 1
         return [6] * k, [((i - 1) // 2, i) for i in range(1, k)]
+    if family == "periodic":         # chain of n atoms running through all 118 elements again and again
+        k, e = gens.path(n)
+        return [(i % 118) + 1 for i in range(k)], e
     raise ValueError(family)
 
 
 FAMILY_DOC = {"chain": "n carbons in a row", "ring1": "n-ring, one N", "comb": "n atoms: spine n/2 with one tooth each",
               "ladder": "n atoms: open ladder of n/2 rungs", "peptide": "about n atoms: poly-alanine H-[NH-CH(CH3)-C(=O)]k-OH with all H",
               "isolated": "n atoms C/H/O without bonds", "frag3": "n copies of H-O-H", "complete": "K_n of carbons",
-              "star": "C with n H leaves", "bintree": "complete binary tree of depth n"}
+              "star": "C with n H leaves", "bintree": "complete binary tree of depth n",
+              "periodic": "chain of n atoms whose elements run through H..Og cyclically"}
 
 
 def peptide(units):
@@ -608,7 +612,7 @@ def _big_instances(tier, rng):
     quick = tier == "quick"
     L = [("chain", 1100, True), ("chain", 2200, False), ("ring1", 2400, False), ("comb", 1200, True), ("ladder", 1200, True),
          ("peptide", 1203, True), ("isolated", 3000, True), ("frag3", 1000, True), ("complete", 40, True), ("star", 500, True),
-         ("bintree", 9, True),
+         ("bintree", 9, True), ("periodic", 1180, True), ("periodic+lab", 236, True),
          # the same shapes carrying isotope / radical labels on some atoms
          ("isolated+lab", 1500, True), ("isolated+lab", 1, True), ("isolated+lab", 2, True), ("frag3+lab", 300, True), ("chain+lab", 600, True),
          ("star+lab", 200, True), ("complete+lab", 20, True), ("ring1+lab", 300, True),
@@ -633,6 +637,7 @@ def _moderate_instances(tier, rng):
          ("isolated", 1), ("isolated", 300), ("frag3", 100), ("complete", 40), ("complete", 2), ("star", 200), ("bintree", 5), ("bintree", 6),
          ("chain", rng.randint(20, 70)), ("ring1", rng.randint(20, 70)), ("comb", rng.randint(20, 70)), ("ladder", rng.randint(20, 70)),
          ("peptide", rng.randint(13, 70)),
+         ("periodic", 118), ("periodic", 119), ("periodic", 300), ("periodic+lab", 118),
          ("isolated+lab", 1), ("isolated+lab", 30), ("chain+lab", 40), ("frag3+lab", 10), ("star+lab", 12), ("complete+lab", 7), ("comb+lab", 30)]
     if not quick:
         L += [("chain", 140), ("ring1", 140), ("comb", 120), ("ladder", 120), ("peptide", 123), ("bintree", 7), ("complete", 60),
@@ -641,7 +646,7 @@ def _moderate_instances(tier, rng):
 
 
 SMALL = {"chain": (20, 40), "ring1": (20, 40), "comb": (20, 40), "ladder": (20, 40), "peptide": (23, 43), "isolated": (5, 10),
-         "frag3": (2, 4), "complete": (5, 8), "star": (5, 10), "bintree": (3, 4)}
+         "frag3": (2, 4), "complete": (5, 8), "star": (5, 10), "bintree": (3, 4), "periodic": (20, 40)}
 
 
 def _model_rounds(model, family, n):
